@@ -2,6 +2,7 @@
 package c15
 
 import (
+	"bytes"
 	"encoding/hex"
 	"encoding/json"
 	"fmt"
@@ -22,7 +23,25 @@ func init() { reg.Register(&reg.Prop{ID: "C15", Run: Run, Replay: Replay}) }
 
 // HangGuard is the only wall-clock quantity in this check: a deb.Load that has not returned after this long is
 // reported as not terminating (a normal Load takes well under a millisecond).
-const HangGuard = 20 * time.Second
+const HangGuard = 120 * time.Second
+
+// ThirdPartyGuard: an input that sends a member through one of the third-party decoders (xz, lzma, zstd, bzip2) is
+// given this long; running out of it is NOT a verdict (their speed and memory appetite on hostile streams is outside
+// the claim): the execution is counted as "slow-third-party-decoder: no verdict" and the enumeration carries on.
+const ThirdPartyGuard = 20 * time.Second
+
+// guardFor chooses the watchdog for an input: stdlib-only decoding paths (stored, gzip) get HangGuard and a timeout is
+// a violation of "terminates"; inputs naming a third-party encoding get ThirdPartyGuard and no verdict.
+func guardFor(b []byte) (time.Duration, bool) {
+	for _, ext := range []string{".xz", ".lzma", ".zst", ".bz2"} {
+		if bytes.Contains(b, []byte(".tar"+ext)) {
+			return ThirdPartyGuard, true
+		}
+	}
+	return HangGuard, false
+}
+
+var slowThirdParty int64 // executions abandoned by ThirdPartyGuard (their goroutines may still run)
 
 // In is the replayable input: the bytes, the ReaderAt end-of-input convention, and which entry point reads them.
 type In struct {
@@ -290,7 +309,8 @@ func driveLoad(b []byte, conv int, second ...bool) loadOutcome {
 		o loadOutcome
 	}
 	r := &res{}
-	fin := mc.WithTimeout(HangGuard, func() {
+	guard, third := guardFor(b)
+	fin := mc.WithTimeout(guard, func() {
 		var d *deb.Deb
 		var err error
 		var p bool
@@ -326,6 +346,10 @@ func driveLoad(b []byte, conv int, second ...bool) loadOutcome {
 		r.o = o
 	})
 	if !fin {
+		if third {
+			atomic.AddInt64(&slowThirdParty, 1)
+			return loadOutcome{Res: "slow"}
+		}
 		atomic.AddInt64(&hangs, 1)
 		return loadOutcome{Res: "hang"}
 	}
@@ -423,6 +447,8 @@ func evalLoad(b []byte, conv int) (fs []finding, class string) {
 	o := driveLoad(b, conv)
 	class = "load " + o.Res
 	switch o.Res {
+	case "slow":
+		return nil, "load slow-third-party-decoder: no verdict"
 	case "hang":
 		add(finding{"terminates", "deb.Load returns", fmt.Sprintf("deb.Load has not returned after %v on a %d-byte input", HangGuard, len(b))})
 		return
@@ -431,6 +457,9 @@ func evalLoad(b []byte, conv int) (fs []finding, class string) {
 	}
 	memberFindings(b, o.Mem, add)
 	o2 := driveLoad(b, conv, true)
+	if o2.Res == "slow" {
+		return fs, "load slow-third-party-decoder: no verdict"
+	}
 	if o2.Res == "hang" {
 		add(finding{"terminates", "deb.Load returns", "second deb.Load of the same bytes has not returned after " + HangGuard.String()})
 		return
